@@ -29,9 +29,15 @@ int __CPROVER_file_local_jwks_c_jwks_item_add(jwk_set_t *jwk_set, jwk_item_t *it
 /* ================================================================== parser havoc (SIDE_LOAD) */
 /* members the load path itself looks at; use / key_ops (and again alg, kid) are varied in the
  * dedicated jwk_process_values query (-DSIDE_VALUES) */
+#ifdef JWK_SMALL      /* fault-injection scenarios: a smaller JWK (no alg member) keeps each of the many queries cheap */
+static const char *const jwk_alpha[] = { "keys", "kty", "k", "kid" };
+#define JWK_NALPHA 4
+enum { S_KEYS = 0, S_KTY, S_K, S_KID };
+#else
 static const char *const jwk_alpha[] = { "keys", "kty", "k", "alg", "kid" };
 #define JWK_NALPHA 5
 enum { S_KEYS = 0, S_KTY, S_K, S_ALG, S_KID };
+#endif
 
 static json_t *doc;          /* what the parser returned (NULL = not JSON) */
 static json_t *doc_copy;     /* snapshot for the oracle                    */
